@@ -57,6 +57,7 @@ def gen_case(rng, thorough):
         if caller == "wrong": o["wk"], o["rk"] = "nope", "nope"
         if caller == "right": o["wk"], o["rk"] = wk or "", rk or ""
         o["_caller"] = caller
+        if rng.random() < 0.35: o["subctx"] = True      # as when the request arrives through the HTTP service (a sub-context of the service's context)
         body.append({"op": "snapshot", "wk": wk or "", "rk": rk or ""})
         body.append(o)
         body.append({"op": "snapshot", "wk": wk or "", "rk": rk or ""})
